@@ -220,7 +220,12 @@ def run_prim(chk, replay=None):
         items, cases = [], []
     for prof, b in bins:
         if deep:
-            douts = core.run_lines(b, [c for c, _ in deep], shards=len(deep), timeout=600)
+            # one process per case, at most 16 at a time (each deep `rd` / `ard` case reserves a large stack for the harness's own
+            # recursion; a hundred of them at once is a needless load on a small machine)
+            douts = []
+            dl = [c for c, _ in deep]
+            for i in range(0, len(dl), 16):
+                douts += core.run_lines(b, dl[i:i + 16], shards=len(dl[i:i + 16]), timeout=600)
             for (c, meta), o in zip(deep, douts):
                 kinds[meta["kind"]] = kinds.get(meta["kind"], 0) + 1
                 chk.count(c[:200] + str(len(c)), True)
